@@ -258,7 +258,10 @@ impl<T: Qcow2IoOps> Qcow2Dev<T> {
 
         // if rb becomes update, it has been committed in read map already
         if !slice.is_update() {
-            let off = top_e.get_value() + slice_off as u64;
+            let off = top_e
+                .get_value()
+                .checked_add(slice_off as u64)
+                .ok_or("table offset is invalid (too high)")?;
             slice.set_offset(Some(off));
 
             if !self.cluster_is_new(off >> info.cluster_bits()).await {
